@@ -58,6 +58,13 @@ type specCtx struct {
 	bound   map[string]SV
 	results []Val
 	inOld   bool
+	trig    *[]string // candidate quantifier triggers collected while evaluating a quantifier body
+}
+
+func (c *specCtx) addTrigger(t string) {
+	if c.trig != nil && strings.HasPrefix(t, "(elem_") {
+		*c.trig = append(*c.trig, t)
+	}
 }
 
 func (c *specCtx) withBound(name string, v SV) *specCtx {
@@ -293,14 +300,19 @@ func (fr *Frame) evalSpec(e SExpr, ctx *specCtx) SV {
 		}
 		return SV{Term: ite(c, a.Term, b.Term), K: a.K, T: a.T}
 	case *SQuant:
-		c := ctx
+		cc := *ctx
+		var trig []string
+		cc.trig = &trig
+		c := &cc
 		var binders []string
+		var qnames []string
 		for _, v := range x.Vars {
 			t := v.T
 			if t == nil {
 				t = &SType{Kind: "name", Name: "int"}
 			}
 			name := g.fresh("q_" + v.Name)
+			qnames = append(qnames, name)
 			binders = append(binders, "("+name+" "+g.specSort(t, fr.ctxPkg(ctx))+")")
 			c = c.withBound(v.Name, g.specSV(name, t, fr.ctxPkg(ctx)))
 		}
@@ -308,6 +320,23 @@ func (fr *Frame) evalSpec(e SExpr, ctx *specCtx) SV {
 		q := "exists"
 		if x.Forall {
 			q = "forall"
+		}
+		// explicit triggers: element accesses mentioning the bound variables
+		pats := ""
+		seenT := map[string]bool{}
+		if len(qnames) == 1 {
+			for _, t := range trig {
+				if strings.Contains(t, qnames[0]) && !seenT[t] && !nestedQuantVar(t, qnames[0]) {
+					seenT[t] = true
+					pats += " :pattern (" + t + ")"
+				}
+			}
+		}
+		if ctx.trig != nil {
+			*ctx.trig = append(*ctx.trig, trig...)
+		}
+		if pats != "" {
+			return SV{Term: "(" + q + " (" + strings.Join(binders, " ") + ") (! " + body + pats + "))", K: svBool}
 		}
 		return SV{Term: "(" + q + " (" + strings.Join(binders, " ") + ") " + body + ")", K: svBool}
 	case *SDynEq:
@@ -346,13 +375,16 @@ func (fr *Frame) evalSpec(e SExpr, ctx *specCtx) SV {
 		switch u := base.T.Underlying().(type) {
 		case *types.Slice:
 			key, _ := g.elemKey(u.Elem())
-			t := "(select (select " + ctx.st.heap.get(g, key) + " (sl_ref " + base.Term + ")) " + g.idxAdd("(sl_off "+base.Term+")", idx) + ")"
+			t := g.elemAt("(select "+ctx.st.heap.get(g, key)+" (sl_ref "+base.Term+"))", "(sl_off "+base.Term+")", idx, g.S.sortOf(u.Elem()))
+			ctx.addTrigger(t)
 			return goSV(Val{T: u.Elem(), S: t})
 		case *types.Array:
 			return goSV(Val{T: u.Elem(), S: "(select " + base.Term + " " + idx + ")"})
 		case *types.Basic:
 			if isString(base.T) {
-				return goSV(Val{T: types.Typ[types.Uint8], S: g.strAt(base.Term, idx)})
+				t := g.strAt(base.Term, idx)
+				ctx.addTrigger(t)
+				return goSV(Val{T: types.Typ[types.Uint8], S: t})
 			}
 		case *types.Pointer:
 			if at, ok := u.Elem().Underlying().(*types.Array); ok {
@@ -389,6 +421,12 @@ func (fr *Frame) evalSpec(e SExpr, ctx *specCtx) SV {
 	}
 	fail("spec: unsupported expression %T", e)
 	return SV{}
+}
+
+// nestedQuantVar: the trigger mentions another (inner) bound variable q_... besides name -> unusable.
+func nestedQuantVar(t, name string) bool {
+	rest := strings.ReplaceAll(t, name, "")
+	return strings.Contains(rest, "q_")
 }
 
 func (fr *Frame) ctxPkg(ctx *specCtx) string {
